@@ -211,14 +211,36 @@ def _conf_work(job):
     name, label, seed, k = job
     from symjnp import contracts as CT
     from symjnp import native
+    cpath = None
+    if not os.environ.get("SYMJNP_NO_CACHE"):   # (same tree, same seed: the sweep of an item shared by several properties is reused)
+        cpath = _cache_path(("conformance", name, label, seed, k))
+        if os.path.exists(cpath):
+            try:
+                return dict(json.load(open(cpath)), cached=True)
+            except Exception:
+                pass
+    out = _conf_run(name, label, seed, k)
+    if cpath is not None and not out["mismatch"]:
+        tmp = cpath + f".{os.getpid()}.tmp"
+        json.dump(out, open(tmp, "w"), default=str)
+        os.replace(tmp, cpath)
+    return out
+
+
+def _conf_run(name, label, seed, k):
+    from symjnp import contracts as CT
+    from symjnp import native
     out = {"item": f"{name}[{label}]", "evaluated": 0, "agree": 0, "skipped": 0, "errors": [], "mismatch": []}
     c = CT.REGISTRY[name]
     case = next((x for x in c.cases if x.label == label), None)
     if case is None:
         return out
     for b in native.battery(seed, k):
+        b = dict(b)
+        if "D=3" in label and b["N"] > 5:      # (three-dimensional grids: keep the numeric evaluation of the spec affordable)
+            b["N"] = b["N"] - 3
         try:
-            r = native.run_native(c, case, dict(b), seed)
+            r = native.run_native(c, case, b, seed)
         except Exception as ex:
             out["errors"].append(f"{type(ex).__name__}: {str(ex)[:160]}")
             continue
